@@ -258,3 +258,40 @@ pub fn family_g() -> Vec<String> {
     .map(String::from)
     .collect()
 }
+
+/// family H: deep chains in which every nesting level needs its own simplification pass
+/// (a rewrite at level k only becomes applicable after level k-1 has been rewritten)
+pub fn family_h(maxdepth: usize) -> Vec<String> {
+    let mut out = vec![];
+    for d in 2..=maxdepth {
+        // guarded existential definitions
+        for (guard_l, guard_r) in [("(", " -> "), ("(not ", " or ")] {
+            for sort in ["", "$i"] {
+                let mut f = format!("q(X{d}{sort})");
+                for k in (2..=d).rev() {
+                    f = format!("exists X{k}{sort} (({guard_l}X{}{sort} = {}){guard_r}X{k}{sort} = {k}) and {f})", k - 1, k - 1);
+                }
+                out.push(format!("exists X1{sort} (X1{sort} = 1 and {f})"));
+            }
+        }
+        // towers of double negations separated by quantifiers and identities
+        let mut f = "q(X)".to_string();
+        for k in 0..d {
+            f = if k % 2 == 0 { format!("not not ({f} and #true)") } else { format!("exists Y{k} ({f} or #false)") };
+        }
+        out.push(f);
+        // implications whose antecedent becomes #true one level at a time
+        let mut f = "p".to_string();
+        for _ in 0..d {
+            f = format!("(1 = 1 -> ({f})) and (p -> p)");
+        }
+        out.push(f);
+        // equality chains: X1 = 1, X2 = X1, ... q(Xd)
+        let mut f = format!("q(X{d})");
+        for k in (2..=d).rev() {
+            f = format!("exists X{k} (X{k} = X{} and {f})", k - 1);
+        }
+        out.push(format!("exists X1 (X1 = 1 and {f})"));
+    }
+    out
+}
